@@ -10,10 +10,14 @@
     Reduce.lean   eagerReduce_sem (incl. variables absent from the argument, scale_eq_rep)
     Rows.lean     mapRows_sem reshape_sem getslice_sem reduction_axis_sem (negative axes) cat_sem unaryOp_sem
     Sound.lean    peval_sound
+    Subs.lean     subsGen_sem (eager_subs at value level: numbers/variables/slices/index tensors), getitem_semI
+    Einsum.lean   einsum_sem (eager_einsum's batch-subscript construction)
+    Carriers.lean logaddexp carrier: cmon_lae, rep_lae (x + log m), fold_unrelated_lae; Bool: fold_unrelated_bool (Algebra)
     Total.lean    peval_total_core, core_complete_and_sound (typing commutes with evaluation)
   This file: non-vacuity examples.
 -/
 import FunsorVerif.Props.C01.Total
+import FunsorVerif.Props.C01.Einsum
 namespace FV.Props.C01
 open FV FV.C01
 
@@ -66,5 +70,13 @@ def exTerm : Term :=
     [("j", ⟨DType.bint 3, []⟩), ("z", ⟨DType.bint 2, []⟩)]
 example : isCore [] exTerm = true := by decide
 example : ((peval exTerm).map fun r => (r.inputs, r.flat)) = some ([("i", 2)], [14, 32]) := by decide +kernel
+
+/-- general substitution: rename onto a fresh name, an index tensor, a slice -/
+example : ((subsGen [("j", rangeNT "m" 0 1 3)] exA).map fun r => (r.inputs, r.flat)) =
+    some ([("i", 2), ("m", 3)], [1, 2, 3, 4, 5, 6]) := by decide +kernel
+example : ((subsGen [("j", rangeNT "i" 0 1 2)] exA).map fun r => (r.inputs, r.flat)) =
+    some ([("i", 2)], [1, 5]) := by decide +kernel
+example : ((subsGen [("j", rangeNT "m" 1 1 2)] exA).map fun r => (r.inputs, r.flat)) =
+    some ([("i", 2), ("m", 2)], [2, 3, 5, 6]) := by decide +kernel
 
 end FV.Props.C01
